@@ -39,29 +39,30 @@ open Gotlcp.Lemmas.Negotiate
 
 /-! ### the regenerated facts are the documented tables -/
 
-/-- Everything the theorems below rely on, pinned to the source of this tree: the preference
-order, the suite table with its flags, the ECDHE ids of the guards, the
-numeric order of the policies, `requiresClientCert`, the iteration shapes of
-`selectCipherSuite` / `pickCipherSuite` / `makeClientHello`, the argument order at the call of
+/-- Everything the theorems below rely on, pinned to the source of this tree: the suite table with
+its flags, the ECDHE ids of the guards, the numeric order of the policies, `requiresClientCert`, the
+iteration shape of `makeClientHello`, the argument order at the call of
 `negotiateALPN` (server's list first), the ECDHE
 policy override, the request and verification thresholds, the repaired certificate list of
-the client (F36), the guards of `checkForResumption` (policy, version, the suite still offered
-by the client and still enabled by the configuration in use), the Clone field sets — for both
-stacks; nothing the extractor looked for is missing.
+the client (F36), the re-check of the recorded client certificates by `doResumeHandshake`, the Clone
+field sets — for both stacks; nothing the extractor looked for is missing.
 NOT pinned by text-matching facts any more: the version table, the loop shape of `negotiateALPN` and
 its h2 / http/1.1 fallback literals.  `factsP` takes them from `Model.Negotiate.treeVersions` /
 `treeAlpnOuterIsFirstArg`, and `Gotlcp.Tie.Negotiate` proves the functions translated from the source
-of both stacks equal to the model with exactly these values (`C01_src_is_model` below). -/
+of both stacks equal to the model with exactly these values (`C01_src_is_model` below).  Likewise the preference
+order, the (empty) list of disabled suites, the iteration shapes of `selectCipherSuite` / the server's
+`pickCipherSuite` and the policy / version / suite guards of `checkForResumption`: `factsP` takes them from
+`treePref`, `treeDisabled`, `treeServerPrefFirst`, `treeResumePolicyGuards`, `treeResumeSuiteGuards`, and
+`Gotlcp.Tie.Select` / `Gotlcp.Tie.ResumeDecision` prove the translated functions equal to the model with these
+values (`C01_src_sel_is_model_*` in Props/C01SrcSel.lean); the text facts `negSelectServerFirst`,
+`negPrefListFromOrder`, `negResumePolicyGuards`, `negResumeSuiteGuards` are informational. -/
 theorem C01_facts :
     tlcpParams = refParams ∧ dtlcpParams = refParams ∧
-    Facts.tlcp.negPrefListFromOrder = true ∧ Facts.dtlcp.negPrefListFromOrder = true ∧
     Facts.tlcp.negHelloFromOrder = true ∧ Facts.dtlcp.negHelloFromOrder = true ∧
     Facts.tlcp.negEcdheAuthOverride = true ∧ Facts.dtlcp.negEcdheAuthOverride = true ∧
     Facts.tlcp.negCertReqFromRequest = true ∧ Facts.dtlcp.negCertReqFromRequest = true ∧
     Facts.tlcp.negVerifyFromIfGiven = true ∧ Facts.dtlcp.negVerifyFromIfGiven = true ∧
-    Facts.tlcp.negResumePolicyGuards = true ∧ Facts.dtlcp.negResumePolicyGuards = true ∧
     Facts.tlcp.negResumeReprocessesCerts = true ∧ Facts.dtlcp.negResumeReprocessesCerts = true ∧
-    Facts.tlcp.negResumeSuiteGuards = true ∧ Facts.dtlcp.negResumeSuiteGuards = true ∧
     Facts.tlcp.VersionTLCP = docVersion ∧ Facts.dtlcp.VersionTLCP = docVersion ∧
     Facts.missing = [] := by
   decide
